@@ -45,7 +45,7 @@ if _PKGS not in sys.path:
 
 def gen_cases(tier: str, seed: int) -> list[dict]:
     n = max(4, int(N[tier] * float(os.environ.get("VERIF_SCALE", "1"))))
-    return [{"seed": f"{seed}:C06:{i}", "i": i} for i in range(n)]
+    return [{"seed": f"{seed}:C06:{i}", "i": i, "n": min(n, 120)} for i in range(n)]
 
 
 def _write_modules(case: dict, rng, *, redefinition: bool = False) -> tuple[object, list[dict], str]:  # noqa: ANN001
@@ -58,7 +58,7 @@ def _write_modules(case: dict, rng, *, redefinition: bool = False) -> tuple[obje
     modname = f"gen_{tag}"
     with open(os.path.join(root, helper + ".py"), "w") as fh:
         fh.write(HELPER_SRC.format(helper=helper))
-    src, meta = Gen(rng, helper).module(6)
+    src, meta = Gen(rng, helper).module(6, sweep_slice=(int(case.get("i", 0)), int(case.get("n", 1))) if "n" in case else None)
     if redefinition:
         path = os.path.join(root, modname + "_again.py")
         with open(path, "w") as fh:
